@@ -152,7 +152,15 @@ func Guard(fn func()) (pi *PanicInfo, parked string) {
 		dump := string(buf[:runtime.Stack(buf, true)])
 		if ok, blocks := parkedLibrary(dump); ok {
 			hits++
-			if hits >= 2 {
+			// with a sleeping poller among them five looks in a row are asked
+			// for (a goroutine that sleeps for microseconds at a hook point
+			// could be caught asleep twice by chance, not five times with
+			// nothing else running)
+			need := 2
+			if strings.Contains(blocks, " [sleep") {
+				need = 5
+			}
+			if hits >= need {
 				return nil, blocks
 			}
 		} else {
@@ -164,7 +172,7 @@ func Guard(fn func()) (pi *PanicInfo, parked string) {
 // parkedLibrary: every goroutine with a frame of the library is parked (the
 // harness goroutine that waits in Guard has none).
 func parkedLibrary(dump string) (bool, string) {
-	var kept []string
+	var kept, sleepers []string
 	for _, blk := range strings.Split(dump, "\n\n") {
 		blk = strings.TrimSpace(blk)
 		m := goroutineHdr.FindStringSubmatch(strings.SplitN(blk, "\n", 2)[0])
@@ -175,11 +183,17 @@ func parkedLibrary(dump string) (bool, string) {
 		switch {
 		case strings.HasPrefix(st, "chan send"), strings.HasPrefix(st, "chan receive"), strings.HasPrefix(st, "select"), strings.HasPrefix(st, "semacquire"), strings.HasPrefix(st, "sync."):
 			kept = append(kept, blk)
+		case strings.HasPrefix(st, "sleep"):
+			sleepers = append(sleepers, blk) // see ParkedGoroutines
 		default:
 			return false, ""
 		}
 	}
-	return len(kept) > 0, strings.Join(kept, "\n\n")
+	if len(kept) == 0 {
+		return false, ""
+	}
+	kept = append(kept, sleepers...)
+	return true, strings.Join(kept, "\n\n")
 }
 
 // RunProcess runs a Go program under observation. cpuSeconds > 0 sets a CPU
